@@ -342,6 +342,10 @@ pub fn fold(path: &Path) -> anyhow::Result<RefState> {
             } => {
                 let k = tkey(task_id);
                 st.job_ids_mentioned.insert(k.0);
+                // (a start record names workers too: C11 speaks of every id the journal mentions)
+                for w in worker_ids.iter() {
+                    st.worker_ids_mentioned.insert(w.as_num());
+                }
                 if let Some(t) = task_mut(&mut st, k) {
                     if !t.state.is_terminal() {
                         t.state = RefTaskState::Running {
